@@ -204,7 +204,10 @@ def run_histories(ctx, binary, hists, chain_sample, tag):
                        "observed": events[bi]["obs"], "ids": h["ids"],
                        "what": "gix-commitgraph's answers differ from the history the commit-graph was written for"})
     # binding C: TLC reads git's files itself
-    sample = [h for h in hists if len(h["parents"]) <= 8][:chain_sample]
+    cand = [h for h in hists if len(h["parents"]) <= 8 and "files" in h]
+    ctx.rng.shuffle(cand)       # prefer chains of several files and octopus merges (EDGE chunk, BASE chunk)
+    cand.sort(key=lambda h: (h["files"] < 2, not any(len(p) > 2 for p in h["parents"])))
+    sample = cand[:chain_sample]
     if sample:
         cev = [chain_event(h) for h in sample]
         rej = ctx.tlc_trace("odb", "CommitGraph_Trace", cev)
